@@ -710,24 +710,27 @@ Proof.
     + rewrite do_close_eq. cbv beta iota. rewrite do_reset_eq. unfold reset_c, close_c. cs.
       split; [cbn [snd app]|apply HWfin]. apply Hgo. apply aw_skip; [reflexivity|].
       apply aw_app; [exact Hsts|]. apply aw_nw. nw_tac.
-    + destruct (dr_drain d1 t1) as [[? ?] t2]. rewrite do_reset_eq. unfold reset_c. cs.
-      split; [cbn [snd app]|apply HWfin]. apply Hgo. apply aw_skip; [reflexivity|].
-      apply aw_app; [exact Hsts|]. apply aw_nw. nw_tac.
+    + destruct (dr_drain d1 t1) as [[de ?] t2]. unfold close_unless.
+      destruct (drained de); cbv beta iota; rewrite ?do_close_eq; cbv beta iota; rewrite do_reset_eq;
+        unfold reset_c, close_c; cs; (split; [cbn [snd app]|apply HWfin]);
+        (apply Hgo; apply aw_skip; [reflexivity|]; apply aw_app; [exact Hsts|]; apply aw_nw; nw_tac).
   - destruct (dp_panic p).
     + rewrite do_close_eq. unfold reset_c, close_c. cs.
       split; [cbn [snd app]|apply HWfin]. apply Hgo. awt.
-    + destruct (dr_drain d1 t1) as [[? ?] t2]. rewrite do_reset_eq. unfold reset_c. cs.
-      split; [cbn [snd app]|apply HWfin]. apply Hgo. apply aw_skip; [reflexivity|].
-      apply aw_app; [apply aw_statuses_same; assumption|]. apply aw_nw. nw_tac.
+    + destruct (dr_drain d1 t1) as [[de ?] t2]. unfold close_unless.
+      destruct (drained de); cbv beta iota; rewrite ?do_close_eq; cbv beta iota; rewrite do_reset_eq;
+        unfold reset_c, close_c; cs; (split; [cbn [snd app]|apply HWfin]);
+        (apply Hgo; apply aw_skip; [reflexivity|]; apply aw_app; [apply aw_statuses_same; assumption|];
+         apply aw_nw; nw_tac).
   - destruct (dp_panic p).
     + rewrite do_close_eq. unfold reset_c, close_c. cs.
       split; [cbn [snd app]|apply HWfin]. apply Hgo. awt.
-    + destruct (dr_drain d1 t1) as [[? ?] t2].
-      destruct (data_error_to_status ret) as [[code ec] msg] eqn:Est.
+    + destruct (data_error_to_status ret) as [[code ec] msg] eqn:Est.
       pose proof (status_triple_wf _ _ _ _ Est Hret) as Ht.
-      rewrite do_reset_eq. unfold reset_c. cs.
-      split; [cbn [snd app]|apply HWfin]. apply Hgo. apply aw_skip; [reflexivity|].
-      apply aw_reply; [exact Ht|]. apply aw_nw. nw_tac.
+      destruct (dr_drain d1 t1) as [[de ?] t2]. unfold close_unless.
+      destruct (drained de); cbv beta iota; rewrite ?do_close_eq; cbv beta iota; rewrite do_reset_eq;
+        unfold reset_c, close_c; cs; (split; [cbn [snd app]|apply HWfin]);
+        (apply Hgo; apply aw_skip; [reflexivity|]; apply aw_reply; [exact Ht|]; apply aw_nw; nw_tac).
 Qed.
 
 (* ---------- BDAT ---------- *)
@@ -741,16 +744,28 @@ Proof.
   end.
   2:{ destruct more as [|a1 [|a2 more]]; [exact Hbody|exact Hbody|ws_same HW]. }
   destruct (parse_uint 32 a0) as [size| |]; [|ws_same HW..].
+  (* a refused chunk: the reply, then discardChunk (which closes when the chunk is short) *)
+  assert (Hrefused : forall code ec msg, triple_ok code ec msg = true ->
+    WS cfg (let '(c1, ev1) := discard_chunk cfg (mkC t ph be h se er bm fr rc da cl tl bd rv) size in
+            (c1, reply code ec msg :: ev1))).
+  { intros code ec msg Ht. rewrite discard_chunk_eq.
+    match goal with |- context [discard_short ?c ?s] => destruct (discard_short c s) end;
+      cbv beta iota; unfold close_c; cs;
+      (split; [cbn [snd]; apply aw_reply; [exact Ht|]; awt
+              |first [exact HW|split; [exact (proj1 HW)|split; [exact (proj1 (proj2 HW))|exact I]]]]). }
   destruct (negb fr || match rc with [] => true | _ :: _ => false end).
-  { rewrite discard_chunk_eq; cs. ws_same HW. }
+  { apply Hrefused. vm_compute; reflexivity. }
   match goal with
   | |- WS _ (match ?lo with None => _ | Some _ => _ end) => destruct lo as [last|]
   end.
-  2:{ rewrite discard_chunk_eq; cs. ws_same HW. }
+  2:{ apply Hrefused. vm_compute; reflexivity. }
+  clear Hrefused.
   destruct HW as (Hbe & Hrc & Hbd).
   destruct (negb (cf_max_bytes cfg =? 0)%Z && (cf_max_bytes cfg <? rv + Z.of_N size)%Z).
-  { rewrite do_reset_eq, discard_chunk_eq; cs; unfold reset_c; cs.
-    split; [cbn [snd app]; awt|split; [exact Hbe|split; [constructor|exact I]]]. }
+  { rewrite discard_chunk_eq.
+    match goal with |- context [discard_short ?c ?s] => destruct (discard_short c s) end;
+      cbv beta iota; rewrite do_reset_eq; unfold reset_c, close_c; cs;
+      (split; [cbn [snd app]; awt|split; [exact Hbe|split; [constructor|exact I]]]). }
   destruct (negb se && match bd with None => true | Some _ => false end).
   { split; [cbn [snd]; awt|split; [exact Hbe|split; [exact Hrc|exact Hbd]]]. }
   destruct bd_events_no_wire as (W1 & W2 & W3 & W4).
@@ -788,20 +803,22 @@ Proof.
   assert (HWfin : forall t' se' cl' fr' rv', WI (mkC t' ph be0 h se' er bm fr' [] da cl' tl None rv')).
   { intros. split; [exact Hbe0|]. split; [constructor|exact I]. }
   destruct werr as [e|]; [|destruct cerr as [te|]].
-  1: cbv beta iota.
-  2: (cbv beta iota; destruct (t_copy_n (size - blen chunk) t1) as [[dg de] t1d]).
+  1: cbv beta iota zeta.
+  2: (cbv beta iota zeta; destruct (t_copy_n (size - blen chunk) t1) as [[dg de] t1d]; cbv beta iota zeta).
   1,2: destruct (last && cf_lmtp cfg).
   - pose proof (Hw1 e eq_refl) as He.
     pose proof (bd_end_wf b1 RDataReset Hb1) as Hb2. pose proof (W2 b1 RDataReset) as Hn2.
     destruct (bd_end b1 RDataReset) as [b2 ev2]. cbn [fst snd] in *. apply (aw_no_wire cfg) in Hn2.
     pose proof (bdat_lmtp_replies_wf cfg b2 e Hb2 He) as Hrs.
     destruct (bdat_lmtp_replies cfg b2 e) as [rs pk]. cbn [fst] in Hrs. cs.
-    destruct (bd_panics b1); rewrite ?do_close_eq; cs; rewrite ?do_reset_eq; unfold close_c, reset_c; cs;
+    match goal with |- context [if ?b then do_close _ else _] => destruct b end;
+      rewrite ?do_close_eq; cs; rewrite ?do_reset_eq; unfold close_c, reset_c; cs;
       (split; [cbn [snd]; rewrite <- ?app_assoc; awt|split; [exact Hbe0|split; [first [exact Hrc|constructor]|exact I]]]).
   - pose proof (Hw1 e eq_refl) as He.
     destruct (data_error_to_status e) as [[code ec] msg] eqn:Est.
     pose proof (status_triple_wf _ _ _ _ Est He) as Ht. cs.
-    destruct (bd_panics b1); rewrite ?do_close_eq; cs; rewrite ?do_reset_eq; unfold close_c, reset_c; cs;
+    match goal with |- context [if ?b then do_close _ else _] => destruct b end;
+      rewrite ?do_close_eq; cs; rewrite ?do_reset_eq; unfold close_c, reset_c; cs;
       (split; [cbn [snd app]; apply aw_app; [assumption|]; apply aw_app; [assumption|];
                apply aw_reply; [exact Ht|]; awt|split; [exact Hbe0|split; [first [exact Hrc|constructor]|exact I]]]).
   - pose proof (berr_of_rerr_wf (rerr_of_copy te)) as He.
@@ -809,12 +826,14 @@ Proof.
     destruct (bd_end b1 (rerr_of_copy te)) as [b2 ev2]. cbn [fst snd] in *. apply (aw_no_wire cfg) in Hn2.
     pose proof (bdat_lmtp_replies_wf cfg b2 _ Hb2 He) as Hrs.
     destruct (bdat_lmtp_replies cfg b2 (berr_of_rerr (rerr_of_copy te))) as [rs pk]. cbn [fst] in Hrs. cs.
-    rewrite ?do_reset_eq; unfold reset_c; cs;
+    match goal with |- context [if ?b then do_close _ else _] => destruct b end;
+      rewrite ?do_close_eq; cs; rewrite ?do_reset_eq; unfold close_c, reset_c; cs;
       (split; [cbn [snd]; rewrite <- ?app_assoc; awt|split; [exact Hbe0|split; [first [exact Hrc|constructor]|exact I]]]).
   - pose proof (berr_of_rerr_wf (rerr_of_copy te)) as He.
     destruct (data_error_to_status (berr_of_rerr (rerr_of_copy te))) as [[code ec] msg] eqn:Est.
     pose proof (status_triple_wf _ _ _ _ Est He) as Ht. cs.
-    rewrite ?do_reset_eq; unfold reset_c; cs;
+    match goal with |- context [if ?b then do_close _ else _] => destruct b end;
+      rewrite ?do_close_eq; cs; rewrite ?do_reset_eq; unfold close_c, reset_c; cs;
       (split; [cbn [snd app]; apply aw_app; [assumption|]; apply aw_app; [assumption|];
                apply aw_reply; [exact Ht|]; awt|split; [exact Hbe0|split; [first [exact Hrc|constructor]|exact I]]]).
   - destruct (negb last).
